@@ -1,9 +1,11 @@
 """C15 — world-stopping operations see other threads only while they are stopped (DESIGN.md section 4, C15).
 
 (P) coq/c15: the handshake model shared with C16; single_stopper / flags_cleared / parked_released for all thread
-    counts and schedules of the repaired lock discipline; stw_refuted (the exit window, finding F10) and
-    global_visible_refuted_spawn_window as witnesses;
-    C15_mutual_exclusion_outside_known / C15_all_stopped_after_first_pass for runs that avoid the two windows.
+    counts and schedules of the repaired lock discipline; stw_refuted (the exit window, finding F10) as witness;
+    thread creation under the heap guard (spawn_locked, tied to the step order of spawn_native_thread):
+    C15_no_unregistered_runner_during_section for every schedule, hence
+    C15_mutual_exclusion_outside_exit_window / C15_all_stopped_outside_exit_window for runs that avoid the exit window;
+    the former spawn window as witnesses on cfg_pre_spawn_fix.
 (C) real script threads with hook H3: the stopper marks a thread's state while it reads / replaces it
     (enumerate_stacks, call_per_ctx); the owner looks the mark up at every instruction dispatch and when it
     retracts its published pointer; injected delays (STEEL_VERIF_DELAY) widen the windows.  No baton scheduler:
@@ -129,12 +131,16 @@ def run(ck):
     ]
     ck.level = "proof"
     ck.notes.append("proved (all thread counts, scripts incl. spawns, schedules): serialisation of stop-the-world sections, pause flags "
-                    "only during a section, parked threads released; C15_mutual_exclusion_outside_known (Excl15 along every run none of "
-                    "whose worlds is in a known window = thread between paused-load and ctx.store(None) with its flag since set, or "
-                    "thread running but unregistered during a section) and C15_all_stopped_after_first_pass; the two windows as "
-                    "refutation witnesses. NOT proved as a theorem: global_visible in the form 'seen = env_gen at every Exec' (the "
-                    "second pass hands every stopped thread the new table by definition of the step, and no stopped thread executes "
-                    "before it is resumed — C15_all_stopped_after_first_pass — but the seen/env_gen bookkeeping invariant was not done)")
+                    "only during a section, parked threads released; C15_no_unregistered_runner_during_section (thread creation under "
+                    "the heap guard - spawn_locked, translated from the order of the steps of spawn_native_thread - : while a section is "
+                    "in progress every started, unfinished thread is registered, for EVERY schedule), hence "
+                    "C15_mutual_exclusion_outside_exit_window / C15_all_stopped_outside_exit_window (Excl15 along every run none of whose "
+                    "worlds has a thread between its paused-load and ctx.store(None) with its flag since set); the exit window as a "
+                    "refutation witness on the current tree, the former spawn window as witnesses on cfg_pre_spawn_fix "
+                    "(C15_global_visible_refuted_spawn_window, C15_unregistered_runner_before_fix). NOT proved as a theorem: "
+                    "global_visible in the form 'seen = env_gen at every Exec' (the second pass hands every stopped thread the new table "
+                    "by definition of the step, a new thread copies its spawner's table under the guard, and no stopped thread executes "
+                    "before it is resumed - C15_all_stopped_outside_exit_window - but the seen/env_gen bookkeeping invariant was not done)")
     # the generated table of C16 is the tie for the lock discipline this model's cfg_fixed describes
     text, _, _ = gen_coq(*scan_sources())
     ck.translate("Gen_C16", text)
